@@ -45,6 +45,9 @@ def main():
         if args and not any(a in sid for a in args if not a.startswith("C") or True) :
             continue
         d = os.path.join(V, "seeded", sid)
+        if json.load(open(os.path.join(d, "meta.json"))).get("obsolete"):
+            print(sid, "OBSOLETE (a later repair made the change harmless; not counted)")
+            continue
         try:
             ov = apply_unified_diff(open(os.path.join(d, "patch.diff")).read(), read)
         except AnalysisError:
